@@ -260,7 +260,10 @@ class Ctx:
         return None
 
     def finish(self, explanation="", extra_cov=None):
-        os.makedirs(os.path.join(VERIF, "evidence"), exist_ok=True)
+        # evidence/ only ever holds runs against /repo itself; runs against a
+        # scratch worktree (VERIF_REPO) write elsewhere
+        evdir = os.path.join(VERIF, "evidence") if REPO == "/repo" else os.path.join(VERIF, ".work", "evidence-alt")
+        os.makedirs(evdir, exist_ok=True)
         os.makedirs(os.path.join(VERIF, "replays"), exist_ok=True)
         viol = []
         seen_known = {}
@@ -313,7 +316,7 @@ class Ctx:
         ev = {"property_id": self.prop, "tier": self.tier, "seed": self.seed, "level": self.level,
               "coverage": cov, "assumptions": self.assumptions, "wall_s": round(time.time() - self.t0, 2),
               "violations": len(viol) + (1 if (self.broken and not viol) else 0)}
-        json.dump(ev, open(os.path.join(VERIF, "evidence", "%s.json" % self.prop), "w"), indent=1, sort_keys=True)
+        json.dump(ev, open(os.path.join(evdir, "%s.json" % self.prop), "w"), indent=1, sort_keys=True)
         for b in self.broken[:5]:
             print("BROKEN: %s\n%s" % (b["obligation"], indent(b["detail"][:1500])))
         for f in viol[:5]:
